@@ -455,6 +455,24 @@ func ifsOnExtract(fn *ssa.Function, lk *ssa.Lookup) []branch {
 // mapRoot: the local variable (alloc) or SSA value a map operand comes from.
 func mapRoot(v ssa.Value) ssa.Value {
 	v = strip(v)
+	// a φ all of whose non-nil inputs are one map is that map (a folded helper returning the map
+	// on its normal returns and nil beside an error)
+	if _, ok := v.(*ssa.Phi); ok {
+		var one ssa.Value
+		n := 0
+		for _, o := range origins(v) {
+			if c, isC := o.(*ssa.Const); isC && c.Value == nil {
+				continue
+			}
+			if one != o {
+				one = o
+				n++
+			}
+		}
+		if n == 1 {
+			v = strip(one)
+		}
+	}
 	if u, ok := v.(*ssa.UnOp); ok && u.Op == token.MUL {
 		return u.X
 	}
